@@ -40,8 +40,23 @@ pub enum Op<W> {
     BmTruncate(usize),
 }
 
+/// strict hex: only hex digits (no sign), value below 2^128 — exactly what the Lean driver accepts
+fn ph(s: &str) -> Option<u128> {
+    if s.is_empty() || !s.bytes().all(|b| b.is_ascii_hexdigit()) {
+        return None;
+    }
+    u128::from_str_radix(s, 16).ok()
+}
+
+fn pl(s: &str) -> Option<Vec<u128>> {
+    if s == "-" {
+        return Some(vec![]);
+    }
+    s.split(',').map(ph).collect()
+}
+
 fn parse_usize(s: &str) -> Option<usize> {
-    let v = parse_hex(s)?;
+    let v = ph(s)?;
     if v > u64::MAX as u128 {
         None
     } else {
@@ -50,14 +65,14 @@ fn parse_usize(s: &str) -> Option<usize> {
 }
 
 fn parse_words<W: Wd>(s: &str) -> Option<Vec<W>> {
-    Some(parse_list(s)?.into_iter().map(from_u128::<W>).collect())
+    Some(pl(s)?.into_iter().map(from_u128::<W>).collect())
 }
 
 fn parse_op<W: Wd>(seg: &[&str]) -> Option<Op<W>> {
     Some(match seg {
         ["read_s"] => Op::ReadS,
         ["read_q"] => Op::ReadQ,
-        ["write", w] => Op::Write(from_u128(parse_hex(w)?)),
+        ["write", w] => Op::Write(from_u128(ph(w)?)),
         ["extend_from_iter", ws] => Op::Extend(parse_words(ws)?),
         ["remaining_s"] => Op::RemS,
         ["remaining_q"] => Op::RemQ,
@@ -637,7 +652,7 @@ fn parse_script<W: Wd>(s: &str) -> Option<Vec<Option<Result<W, ()>>>> {
         .map(|t| match t {
             "x" => Some(Some(Err(()))),
             "_" => Some(None),
-            _ => parse_hex(t).map(|v| Some(Ok(from_u128::<W>(v)))),
+            _ => ph(t).map(|v| Some(Ok(from_u128::<W>(v)))),
         })
         .collect()
 }
@@ -723,7 +738,7 @@ fn do_init<W: Wd>(kind: &str, seg: &[&str]) -> Init<W> {
             _ => Init::Bad,
         },
         "backend.callback" => match seg {
-            ["fallible", fa] => opt(parse_list(fa).map(|fail_at| {
+            ["fallible", fa] => opt(pl(fa).map(|fail_at| {
                 Box::new(mk_cbf::<W>(CbState { log: vec![], calls: 0, fail_at })) as Box<dyn Dyn<W>>
             })),
             ["infallible"] => Init::Ok(Box::new(mk_cbi::<W>(CbState { log: vec![], calls: 0, fail_at: vec![] }))),
@@ -767,7 +782,7 @@ pub fn run(segs: &[Vec<&str>]) -> String {
     if segs.len() < 2 || segs[0].len() != 2 {
         return "bad-op".into();
     }
-    match parse_hex(segs[0][1]) {
+    match ph(segs[0][1]) {
         Some(8) => run_w::<u8>(segs),
         Some(16) => run_w::<u16>(segs),
         Some(32) => run_w::<u32>(segs),
